@@ -28,9 +28,16 @@ type Spec struct {
 type Unit struct {
 	Dir     string   `json:"dir"`   // package directory relative to /repo
 	Files   []string `json:"files"` // harness sources relative to harness/<ID>/
+	Extra   []Extra  `json:"extra"` // harness sources injected into other package directories
 	Runs    []Run    `json:"runs"`
 	Workers int      `json:"workers"` // 0 = default
 	Tags    string   `json:"tags"`    // extra build tags
+}
+
+// Extra is a harness file injected into a package other than the unit's own.
+type Extra struct {
+	Dir  string `json:"dir"`
+	File string `json:"file"`
 }
 
 // Run is one exploration: an entry function with bound parameters.
